@@ -46,7 +46,7 @@ def exRaise : Stmt :=
   .tryx false false (.seq (.bind "a" 1) (.seq .raise_ (.bind "a" 2))) (.hcons .skip .skip (.read "a" 3) .hnil) .skip
 example : wf exRaise = true := by decide
 example : Reach exRaise State.init 3 (State.init.upd "a" 1) :=
-  .tryX (.seqN .bind (.seqA .raise_ (by simp))) (.hMatch .skip .skip .readStop)
+  .tryX (.seqN .bind (.seqA .raise_ (by simp))) (.hMatchS .skip .skip .readStop)
 
 /-- on the structured fragment (no jumps) the answer even contains the very definition that is read (from C02) -/
 theorem C01_visible_partial (ks : List Ident) (s : Stmt) (σ σr : State) (r : RId) (x : Ident) (T F : Tbl) (d : Site)
